@@ -254,7 +254,7 @@ pub proof fn lemma_info_image(d0: Seq<u8>, h: Seq<u8>, z: Seq<u8>, tso: int, s: 
         lemma_dir_len(hdr, zoom_entries@);
         assert(file.data() == img(d0, 0, hz));
     }
-//@at /file\.put_u64\(data_count\)/ before
+//@at /file\.put_u64\(data_count\)/ before optional
     proof {
         [[L: summary_written_in_published_order]]
         assert(file.data() == img(img(d0, 0, hz), total_summary_offset as int, fmt_summary(summary)));
